@@ -36,8 +36,8 @@ Wrap(n) == LET sn == Snips[n] IN
     [] sn = "{% block b %}" -> <<"", "x{% endblock %}">>
     [] sn = "{% embed 'p' %}" -> <<"", "{% block a %}e{% endblock %}{% endembed %}">>
     [] sn = "{% endembed %}" -> <<"{% embed 'p' %}{% block a %}e{% endblock %}", "">>
-    [] sn = "{% verbatim %}" -> <<"", "{{ v }}{% endverbatim %}">>
-    [] sn = "{% endverbatim %}" -> <<"{% verbatim %}{{ v }}", "">>
+    [] sn = "{% verbatim %}" -> <<"", "{{ v }}{% if a %}y{# c #}{% endverbatim %}z">>
+    [] sn = "{% endverbatim %}" -> <<"w{% verbatim %}{{ v }}{% endif %}", "">>
     [] sn = "{% set x %}" -> <<"", "y{% endset %}{{ x }}">>
     [] sn = "{% endset %}" -> <<"{% set x %}y", "{{ x }}">>
     [] sn = "{% endblock %}" -> <<"{% block b %}x", "">>
